@@ -53,6 +53,7 @@ def tree_hash():
         if os.path.exists(p):
             files.append(p)
     files.append(DRIVER)
+    files.append(os.path.join(VERIF, 'setup.sh'))   # sysroot recipe
     for p in files:
         h.update(p.encode())
         with open(p, 'rb') as fh:
